@@ -83,9 +83,13 @@ def m_node(p, n, b: dict) -> bool:
             if not isinstance(n, ast.Name):
                 return False
             if p.id in b:
-                return b[p.id] == n.id
-            if n.id in [v for k, v in b.items() if isinstance(v, str)]:
-                return False  # two metavariables never bind the same name
+                if b[p.id] == n.id:
+                    return True
+                # an alias of the bound variable (`name = v` ... `types[name]`)
+                v = _temp_value(n)
+                return isinstance(v, ast.Name) and v.id == b[p.id]
+            if n.id in [v for k, v in b.items() if isinstance(v, str)] and p.id not in b.get('__comp_locals__', ()):
+                return False  # two metavariables never bind the same name (the variable of a comprehension may shadow one)
             b[p.id] = n.id
             return True
     if isinstance(p, (ast.ListComp, ast.SetComp, ast.DictComp, ast.GeneratorExp)) and type(p) is type(n) and not b.get('__in_comp__'):
@@ -94,10 +98,11 @@ def m_node(p, n, b: dict) -> bool:
         local = {k for k in local if k not in b}
         b2 = dict(b)
         b2['__in_comp__'] = True
+        b2['__comp_locals__'] = local
         if not m_node(p, n, b2):
             return False
         for k, v in b2.items():
-            if k not in local and k != '__in_comp__':
+            if k not in local and k not in ('__in_comp__', '__comp_locals__'):
                 b[k] = v
         return True
     if isinstance(p, ast.Name) and isinstance(n, ast.Attribute) and p.id[:1].isupper() and n.attr == p.id and isinstance(n.value, ast.Name):
